@@ -5,6 +5,7 @@ import (
 	"fmt"
 	"os"
 	"strings"
+	"verifharness/chk"
 
 	"verifharness/tlc"
 )
@@ -98,6 +99,7 @@ func run(module, cfg string, consts map[string]string, lines []string) (*tlc.Res
 		return nil, err
 	}
 	defer os.Remove(f.Name())
+	chk.AtExit(func() { _ = os.Remove(f.Name()) })
 	for _, l := range lines {
 		fmt.Fprintln(f, l)
 	}
